@@ -246,6 +246,9 @@ def templates(tier):
     yield "asg:chain-name-attr", "x = p(1).a = p(0)", ""
     yield "asg:chain-tuple", "p(1).a, p(2).b = p(3).c = p(0, (0, 0))", ""
     yield "asg:chain3-sub", "p(1)[p(2)] = p(3)[p(4)] = p(5)[p(6)] = p(0)", ""
+    yield "asg:chain-unpack-first", "x, y = z = p(0, (0, 0))\nm(1)\nz.probe", ""
+    yield "asg:chain-unpack-mid", "p(1).a = (x, y) = p(2)[p(3)] = p(0, (0, 0))", ""
+    yield "asg:chain-two-unpacks", "x, y = [p(1).a, *z] = p(0, (0, 0))", ""
     yield "asg:ann-name", "x: int = p(0)", ""
     yield "asg:ann-attr", "p(1).a: int = p(0)", ""
     yield "asg:unpack-sub-rhs", "x, y = p(1)[p(2)]", ""
@@ -320,6 +323,12 @@ def templates(tier):
     yield "for:sub-target", "for p(1)[p(2)] in p(3, (0, 0)):\n    m(4)", ""
     yield "for:tuple-target", "for p(1).a, (x, *p(2).b) in p(3, ((0, (0, 0, 0)), (0, (0,)))):\n    m(4)", ""
     yield "for:break", "for x in p(1, (0, 0, 0)):\n    if p(2):\n        break\n    m(3)\nelse:\n    m(4)", ""
+    yield "for:walrus-iter", "for x in (w := p(1, (0, 0))):\n    m(2)", ""
+    yield "for:walrus-iter-break", "for x in (w := p(1, (0, 0, 0))):\n    if p(2):\n        break\n    m(3)\nelse:\n    m(4)", ""
+    yield "for:walrus-iter-return", "def f():\n    for x in (w := p(1, (0, 0))):\n        if p(2):\n            return p(3)\n    return p(4)\nf()", ""
+    yield "for:walrus-in-call-iter", "for x in p(1)(k=(w := p(2))).f:\n    m(3)\n    break", ""
+    yield "while:walrus", "n = 0\nwhile (w := p(1)):\n    m(2)\n    n = n + 1\n    if n > 1:\n        break", ""
+    yield "while:walrus-cmp", "n = 0\nwhile (w := p(1)) < p(2):\n    n = n + 1\n    if n > 1:\n        break\nelse:\n    m(3)", ""
     yield "for:iter-call", "for x in p(1)(p(2)).f:\n    m(3)", ""
     yield "return:value", "def f():\n    return p(1)(p(2))\nf()", ""
     yield "return:in-loop", "def f():\n    for x in p(1, (0, 0)):\n        if p(2):\n            return p(3)\n    return p(4)\nf()", ""
@@ -449,6 +458,8 @@ def main(tier, seed, collect=None):
     t0 = time.time()
     k = 64
     total = core.run_shards(run_shard, [(tier, r, k, core.ALL_CFG) for r in range(k)], seed=seed, pid=PID)
+    other_hosts = core.run_on_hosts(PID, ["py310", "py311", "py313"], "quick", seed, total) if tier == "thorough" else []
+
     c = total.c
     cov = {
         "states": c["choice_nodes"],
